@@ -177,6 +177,50 @@ def scan_helper(ctx, key, name, want_flag, mutating):
             if len(a) < 2 or a[1] != ('param', 2):
                 ctx.violate(key, p, '%s compares entries with something other than its signal argument' % name, at=q.at)
         eqbr = [e for e in evs if e.name == 'BR' and e.data['label'] == 'cmp_eq']
+        posbr = [e for e in evs if e.name == 'BR' and e.data['label'] == 'discr:std::iter::Iterator::position']
+        anybr = [e for e in evs if e.name == 'BR' and e.data['label'] == 'discr:std::iter::Iterator::any']
+        if posbr or any(e.name == 'CALL' and e.data['callee'] in ('std::iter::Iterator::position', 'std::iter::Iterator::any') for e in evs):
+            # alternative idiom: wait_list.iter().position(|s| s.eq(sig)) -> Some(i) => remove(i)
+            pc = [e for e in evs if e.name == 'CALL' and e.data['callee'] in ('std::iter::Iterator::position', 'std::iter::Iterator::any')]
+            ok_src = False
+            if len(pc) == 1:
+                a = pc[0].data['args']
+                src = a[0]
+                if src[0] in ('ref', 'rawptr') and len(src) > 2 and src[2] is not None:
+                    src = src[2]
+                from mir import ci_field_ref
+                ok_src = src[0] == 'call' and src[2] == 'std::collections::VecDeque::iter' and ci_field_ref(src[3][0]) == 'wait_list'
+                clo = a[1] if len(a) > 1 else None
+                ok_clo = clo is not None and clo[0] == 'agg' and clo[1] == 'closure' and closure_is_eq_sig(ctx, clo)
+            if not (len(pc) == 1 and ok_src and ok_clo):
+                ctx.violate(key, p, '%s: the search is not `wait_list.iter().position/any(|s| s.eq(sig))` over the whole list' % name)
+                continue
+            if pc[0].data['callee'].endswith('::any'):
+                found = truth  # the boolean result is returned / branched on directly
+                if mutating:
+                    ctx.violate(key, p, '%s uses any() but must know the position to remove' % name)
+                if muts:
+                    ctx.violate(key, p, '%s mutates the wait list' % name)
+                if truth:
+                    saw_true = True
+                else:
+                    saw_false = True
+                continue
+            found = bool(posbr) and posbr[-1].data['outcome'] == 'Some'
+            if truth != found:
+                ctx.violate(key, p, '%s returns %s although the entry was %sfound' % (name, truth, '' if found else 'not '))
+            if truth and mutating:
+                rem = [e for e in muts if e.name == 'WL.remove']
+                pay = ('field', ('downcast', pc[0].data['res'], 'Some'), '0')
+                if len(muts) != 1 or len(rem) != 1 or not rem[0].data['args'] or rem[0].data['args'][0] != pay:
+                    ctx.violate(key, p, '%s must remove exactly the found position with the order-preserving remove(i) (mutators: %s)' % (name, [m.name for m in muts]))
+            elif muts:
+                ctx.violate(key, p, '%s mutates the wait list (%s) on a path that %s' % (name, muts[0].name, 'only looks up' if not mutating else 'returns false'))
+            if truth:
+                saw_true = True
+            else:
+                saw_false = True
+            continue
         if truth:
             saw_true = True
             if not eqbr or eqbr[-1].data['outcome'] != 'T':
@@ -209,6 +253,27 @@ def scan_helper(ctx, key, name, want_flag, mutating):
                 ctx.violate(key, p, '%s returns false although an entry matched' % name)
     if not (saw_true and saw_false):
         ctx.violate(key, None, '%s cannot return both true and false' % name, sig='cases')
+
+
+def closure_is_eq_sig(ctx, clo):
+    """closure `|s| s.eq(sig)` capturing the helper's signal argument (param 2 of the enclosing function)"""
+    name = clo[2]
+    b = ctx.facts.bodies.get(name)
+    if b is None:
+        return False
+    caps = clo[3]
+    if not caps or not any(c == ('param', 2) or (c[0] in ('ref', 'rawptr') and len(c) > 2 and c[2] == ('param', 2)) for c in caps):
+        return False
+    ps = b.paths(1) or []
+    rets = [p for p in ps if p.end == 'return']
+    if len(rets) != 1:
+        return False
+    r = rets[0].ret
+    if not (r is not None and r[0] == 'call' and r[2] == 'std::cmp::PartialEq::eq' and len(r[3]) == 2):
+        return False
+    # one side is the element (closure arg 2), the other is loaded from the closure environment (arg 1)
+    sides = [contains(x, ('param', 2)) for x in r[3]] + [contains(x, ('param', 1)) for x in r[3]]
+    return (sides[0] and sides[3]) or (sides[1] and sides[2])
 
 
 def enumerate_of_plain_iter(item):
@@ -256,6 +321,28 @@ def h6(ctx):
     for p, evs in ret_paths(ctx, b):
         ctx.oblige(1, sample='terminate_signals [%s]' % p.signature())
         muts = wl_mutators(evs)
+        if muts and all(m.name in ('WL.pop_front', 'WL.pop_back') for m in muts):
+            # alternative idiom: while let Some(t) = wait_list.pop_front() { t.terminate() }
+            terms = [e for e in evs if e.name == 'SIGTERM']
+            somes = []
+            for m_ in muts:
+                got = [x for x in evs if x.name == 'BR' and x.data['label'] in ('pop', 'pop_back') and x.idx > m_.idx]
+                if got and got[0].data['outcome'] == 'Some':
+                    somes.append(m_)
+            lastbr = [e for e in evs if e.name == 'BR' and e.data['label'] in ('pop', 'pop_back')]
+            if not lastbr or lastbr[-1].data['outcome'] != 'None':
+                ctx.violate(key, p, 'terminate_signals leaves the pop loop before the list is empty')
+            if len(terms) != len(somes):
+                ctx.violate(key, p, '%d entries removed but %d terminated' % (len(somes), len(terms)))
+            for m_, t_ in zip(somes, terms):
+                some_term = True
+                pay = ('field', ('downcast', m_.data['res'], 'Some'), '0')
+                a0 = t_.data['args'][0]
+                if a0 != pay and not (a0[0] in ('ref', 'rawptr') and len(a0) > 2 and a0[2] == pay):
+                    ctx.violate(key, p, 'terminate() applied to something other than the removed entry', at=t_.at)
+            if any(e.name == 'WR' or e.name.startswith('Q.') for e in evs):
+                ctx.violate(key, p, 'terminate_signals changes other channel state')
+            continue
         if [m.name for m in muts] != ['WL.clear']:
             ctx.violate(key, p, 'terminate_signals must end with exactly one wait_list.clear() (mutators: %s): a terminated waiter left in the list would be touched again' % [m.name for m in muts])
         its = [e for e in evs if e.name == 'WL.iter']
